@@ -192,7 +192,7 @@ def gen_case(rng):
 
 
 def generate(rng, tier):
-    n = 900 if tier == "quick" else 12000
+    n = 900 if tier == "quick" else 8000
     for _ in range(n):
         yield gen_case(rng)
 
